@@ -155,7 +155,9 @@ func doParse(req *parseReq) (resp parseResp) {
 	}
 	sort.Strings(resp.Modules)
 	if len(req.Dump) > 0 {
-		resp.Extra = map[string][]string{}
+		if resp.Extra == nil { // may already hold "render-panic"
+			resp.Extra = map[string][]string{}
+		}
 		for _, d := range req.Dump {
 			if f, ok := dumpers[d]; ok {
 				resp.Extra[d] = f(mod, dir)
